@@ -262,6 +262,11 @@ func fullDirScript(nuniv int, hows []string) [][]any {
 	}
 	// Length is asked right after an iteration that ended with one read past the end, and again later
 	sc = append(sc, []any{"iter", "map"}, []any{"length"}, []any{"iter", "native"}, []any{"length"})
+	// other legitimate ways of stepping an iterator, and every name resolved twice in a row
+	sc = append(sc, []any{"iter", "map-nodone"}, []any{"iter", "native-nodone"}, []any{"iter", "map-dd"}, []any{"iter", "native-dd"})
+	for id := 1; id <= nuniv; id++ {
+		sc = append(sc, []any{"lookup", id, "string"}, []any{"lookup", id, "string"}, []any{"lookup", id, hows[id%len(hows)]})
+	}
 	return sc
 }
 
@@ -511,7 +516,7 @@ func init() {
 									}
 									dc.Script = [][]any{{"length"}, {"iter", "map"}}
 								} else {
-									dc.Script = append(fullDirScript(10, []string{"string", "native"}), []any{"reopen"}, []any{"length"},
+									dc.Script = append(fullDirScript(10, allHows), []any{"reopen"}, []any{"length"},
 										[]any{"iter", "map"}, []any{"lookup", 1, "string"}, []any{"lookup", 4, "string"}, []any{"lookup", 6, "string"}, []any{"lookup", 7, "string"}, []any{"lookup", 8, "string"},
 										// the shard comes back: the same node must now see every entry
 										[]any{"heal"}, []any{"iter", "map"}, []any{"lookup", 5, "string"}, []any{"lookup", 8, "string"}, []any{"length"})
